@@ -340,7 +340,7 @@ def fam_lexer_splits(sess):
     fam = 'lexer_splits'
     ex = sess.executor(lexer_models(), unwind=800, maxsteps=4000000)
     quick = sess.tier == 'quick'
-    sess.bounds[fam] = {'queries': SPLIT_QUERIES, 'split sets': 'every subset of the whitespace positions (<= %d free positions per query) in which every search-root word is a shell word of its own' % (5 if quick else 14)}
+    sess.bounds[fam] = {'queries': SPLIT_QUERIES, 'split sets': 'every subset of the whitespace positions (<= %d free positions per query) in which every search-root word is a shell word of its own' % (5 if quick else 8)}
     for q in SPLIT_QUERIES:
         words = q.split(' ')
         k = len(words) - 1
@@ -360,7 +360,7 @@ def fam_lexer_splits(sess):
                 in_roots = False
             if in_roots and w.endswith(',') and i + 1 < len(words):
                 root_after.add(i + 1)
-        free = [i for i in range(k) if i not in root_after][:(5 if quick else 14)]
+        free = [i for i in range(k) if i not in root_after][:(5 if quick else 8)]
         box = {'paths': 0}
 
         def run(ctx, q=q, words=words, free=free, root_after=root_after, k=k):
